@@ -593,6 +593,18 @@ class World:
         fm.cache = _lru_cache(None)
         m["functools"] = fm
 
+        import unicodedata as _ud
+
+        def ud_normalize(form, s_):
+            if getattr(s_, "_ostr", False):
+                # an arbitrary string need not be stable under normalisation: the result is another opaque string
+                return OStr("%s(%s)" % (form, s_.name), nonempty=s_._nonempty, parent=s_)
+            return _ud.normalize(form, s_)
+        udm = types.ModuleType("unicodedata")
+        udm.__dict__.update({k: v for k, v in vars(_ud).items() if not k.startswith("__")})
+        udm.normalize = ud_normalize
+        m["unicodedata"] = udm
+
         # --- glob / fnmatch over the abstract filesystem
         import glob as _glob
         import fnmatch as _fnmatch
